@@ -48,10 +48,16 @@ def main():
     sh('git checkout -- . && rm -f tests/demo.rs', cwd=wt)
     rep['confirmed'] = bool(clean_ok and unit_ok and demo_fails)
     # 3. run the checks against /repo with the patch
-    rc, o = sh('git -C /repo status --porcelain')
+    # SEED_REPO: a scratch worktree of /repo HEAD to apply the patch to (so that /repo itself stays usable meanwhile);
+    # default: /repo itself, as the brief describes
+    target = os.environ.get('SEED_REPO', '/repo')
+    if target != '/repo':
+        sh('git -C /repo worktree remove --force %s' % target); sh('rm -rf %s' % target)
+        sh('git -C /repo worktree add --detach %s HEAD' % target)
+    rc, o = sh('git -C %s status --porcelain' % target)
     if o.strip():
-        rep['error'] = '/repo not clean'; print(json.dumps(rep, indent=1)); return 1
-    rc, o = sh('git -C /repo apply %s' % patch)
+        rep['error'] = '%s not clean' % target; print(json.dumps(rep, indent=1)); return 1
+    rc, o = sh('git -C %s apply %s' % (target, patch))
     checks = {}
     try:
         if rc != 0:
@@ -62,13 +68,15 @@ def main():
                 props = [c['property_id'] for c in man['checks']]
             for p in props:
                 t0 = time.time()
-                rc2, o2 = sh('./check %s quick' % p, cwd=VERIF, timeout=3600)
+                rc2, o2 = sh('./check %s quick' % p, cwd=VERIF, timeout=3600, env=dict(os.environ, VERIF_REPO=target))
                 viol = [l for l in o2.split('\n') if l.startswith('VIOLATION')]
                 failed = [l.strip() for l in o2.split('\n') if l.strip().startswith('failed:')][:6]
                 checks[p] = dict(rc=rc2, violation=bool(viol), lines=viol + failed, wall=round(time.time() - t0, 1),
                                  tool=[l for l in o2.split('\n') if l.startswith('TOOL-ERROR')][:3])
     finally:
-        sh('git -C /repo checkout -- .')
+        sh('git -C %s checkout -- .' % target)
+        if target != '/repo':
+            sh('git -C /repo worktree remove --force %s' % target)
     rep['checks'] = checks
     rep['caught_by'] = sorted(p for p, c in checks.items() if c['violation'])
     d = os.path.join(VERIF, 'seeded', sid)
